@@ -1362,6 +1362,54 @@ def _inline_local_closures(mods: dict[str, Module], log: list[str]) -> None:
                     break
 
 
+def _inline_new_properties(mods: dict[str, Module], inv: dict, log: list[str]) -> None:
+    """A property the reference tree does not have, whose getter is one expression over `self` (`return self.current_batch_index == 0`) and which has no
+    setter, is read as that expression wherever a method of the class (or of a subclass in the same module) reads it on its own `self`."""
+    for mod in mods.values():
+        old = inv["modules"].get(mod.name)
+        classes = [n for n in mod.tree.body if isinstance(n, ast.ClassDef)]
+        for cls in classes:
+            oc = old["classes"].get(cls.name) if old is not None else None
+            known = set(oc["methods"]) | set(oc.get("attrs", [])) if oc is not None else set()
+            props: dict[str, tuple[str, ast.expr, ast.FunctionDef]] = {}
+            for x in cls.body:
+                if isinstance(x, ast.FunctionDef) and x.name not in known and [ast.unparse(d) for d in x.decorator_list] == ["property"] and len(x.args.args) == 1:
+                    body = [b for b in x.body if not (isinstance(b, ast.Expr) and isinstance(b.value, ast.Constant))]
+                    if len(body) == 1 and isinstance(body[0], ast.Return) and body[0].value is not None and _pure(body[0].value):
+                        props[x.name] = (x.args.args[0].arg, body[0].value, x)
+            for x in cls.body:  # a setter / deleter makes it more than a derived value
+                if isinstance(x, ast.FunctionDef) and any(ast.unparse(d).endswith((".setter", ".deleter")) for d in x.decorator_list):
+                    props.pop(x.name, None)
+            if not props:
+                continue
+            family = [c for c in classes if c is cls or cls.name in [ast.unparse(b).split(".")[-1] for b in c.bases]]
+            n_sub = 0
+            for c in family:
+                for m in c.body:
+                    if not isinstance(m, FuncNode) or not m.args.args or any(m is p_[2] for p_ in props.values()):
+                        continue
+                    me = m.args.args[0].arg
+
+                    class T(ast.NodeTransformer):
+                        def visit_Attribute(self, node: ast.Attribute):  # noqa: N802
+                            nonlocal n_sub
+                            self.generic_visit(node)
+                            if isinstance(node.ctx, ast.Load) and isinstance(node.value, ast.Name) and node.value.id == me and node.attr in props:
+                                sname, expr, _ = props[node.attr]
+                                n_sub += 1
+                                return ast.copy_location(_Subst({sname: ast.Name(id=me, ctx=ast.Load())}).visit(_clone(expr)), node)
+                            return node
+                    T().visit(m)
+            if n_sub:
+                # a property still read from elsewhere stays; one that is not read any more is dropped with the other inlined helpers
+                for nm, (_, _, node) in props.items():
+                    still = any(isinstance(a, ast.Attribute) and a.attr == nm for mm in mods.values() for a in ast.walk(mm.tree))
+                    if not still and node in cls.body and len(cls.body) > 1:
+                        cls.body.remove(node)
+                log.append(f"{mod.relpath} {cls.name}: new derived propert{'ies' if len(props) > 1 else 'y'} {sorted(props)} read as their expressions ({n_sub} read(s))")
+        ast.fix_missing_locations(mod.tree)
+
+
 def _split_conditional_with(mods: dict[str, Module], log: list[str]) -> None:
     """`with f(x, mode=A if c else B) as v: body` with a pure test `c` is read as `if c: with f(.., A): body else: with f(.., B): body`, and inside a branch
     taken under `c` (resp. `not c`) a nested `if c:` keeps only the branch that can run."""
@@ -1913,6 +1961,7 @@ def canonicalise(mods: dict[str, Module]) -> dict:
     _inline_new_constants(mods, inv, cm_log)
     align_locals(mods, inv, loc_log)
     _inline_local_closures(mods, cm_log)
+    _inline_new_properties(mods, inv, cm_log)
     inl = Inliner(mods, inv)
     inl.run()
     fwd_log: list[str] = []
